@@ -213,8 +213,33 @@ def run_sharded(side, cmd, blocks, nshards=16, release=False, tag="c"):
         with open(path, "w") as f:
             for _, b in sh:
                 f.write("\n".join(b) + "\n")
-        out = run_model(cmd, path) if side == "model" else run_impl(cmd, path, release=release)[0]
-        return out
+        if side == "model":
+            return run_model(cmd, path)
+        nlines = sum(len(b) for _, b in sh)
+        limit = 150 if nlines < 6000 else 900
+        try:
+            return run_impl(cmd, path, release=release, timeout=limit)[0]
+        except subprocess.TimeoutExpired:
+            if cmd != "solve": raise
+            # some case of this shard does not terminate (e.g. a deadlocked parallel run): isolate it; every `solve` case is independent
+            out = []; hangs = 0
+            for bi, (_, b) in enumerate(sh):
+                if hangs >= 3:
+                    out += ["S HANG (not run: three cases of this shard already hang)"] * (len(b) - 1); continue
+                bp = workfile("%s_%s_%s_%d_b%d.txt" % (tag, side, cmd, k, bi))
+                open(bp, "w").write("\n".join(b) + "\n")
+                try:
+                    out += run_impl(cmd, bp, release=release, timeout=40)[0]
+                except subprocess.TimeoutExpired:
+                    for ci, case in enumerate(b[1:]):
+                        cp = workfile("%s_%s_%s_%d_b%d_c%d.txt" % (tag, side, cmd, k, bi, ci))
+                        open(cp, "w").write(b[0] + "\n" + case + "\n")
+                        try:
+                            o = run_impl(cmd, cp, release=release, timeout=10)[0]
+                            out += o if o else ["S CRASH (no output)"]
+                        except subprocess.TimeoutExpired:
+                            out.append("S HANG (watchdog 10 s)"); hangs += 1
+            return out
     res = [None] * len(blocks)
     with concurrent.futures.ThreadPoolExecutor(max_workers=nshards) as ex:
         outs = list(ex.map(work, range(nshards)))
